@@ -1,6 +1,6 @@
 SPECIFICATION Spec
 CONSTANTS
   MaxKeys = 3
-  KeyCols = {"name", "ext", "size", "hardlinks", "modified", "length(name)", "size + 1", "size - 100", "-size", "2 * size", "length(name) * 4", "is_dir", "uid", "blocks", "dir", "day(modified)", "dow(modified)", "year(modified)", "-length(name)"}
+  KeyCols = {"name", "ext", "size", "hardlinks", "modified", "length(name)", "size + 1", "size - 100", "-size", "2 * size", "length(name) * 4", "is_dir", "uid", "blocks", "dir", "day(modified)", "dow(modified)", "year(modified)", "-length(name)", "concat(size, name)"}
   WorldSel = {0}
 INVARIANTS EmitWorld Emit
